@@ -302,3 +302,12 @@ Definition b3_far : block := Eval vm_compute in
 Lemma age_sum_saturates :
   validate c15 c05 cfw s2 b3_far = Ok false /\ validate c15 c05 cfr s2 b3_far = Ok false.
 Proof. split; vm_compute; reflexivity. Qed.
+
+(* regression of 812712b: value * multiplier saturates at 2^64-1 instead of overflowing (debug
+   profile: it was a panic in Block::create for outputs above 2^63 once the multiplier reached 2) *)
+Lemma payout_product_saturates :
+  match atr_group (M64 true) (pay 1 1 [] []) 2 10 atr0 (GSingle (mkSlip 1 9223372036854775813 SNormal 1 0 0)) with
+  | Ok a => a_payout a = 9223372036854775802 /\ map (fun t => map s_amt (t_to t)) (a_rbs a) = [[18446744073709551605]]
+  | _ => False
+  end.
+Proof. vm_compute. split; reflexivity. Qed.
